@@ -26,6 +26,37 @@ func main() {
 		}
 		return
 	}
+	if len(os.Args) >= 2 && os.Args[1] == "gencheck" {
+		// every generator must produce unique, non-empty case ids for both tiers at several seeds
+		bad := 0
+		for _, id := range core.IDs() {
+			chk := core.Lookup(id)
+			for _, tier := range []string{"quick", "thorough"} {
+				for _, seed := range []int64{1, 2, 3, 7, 11} {
+					seen := map[string]bool{}
+					cs := chk.Gen(tier, seed)
+					for _, c := range cs {
+						if c.ID == "" || seen[c.ID] {
+							fmt.Printf("gencheck: %s %s seed=%d: duplicate or empty case id %q\n", id, tier, seed, c.ID)
+							bad++
+						}
+						seen[c.ID] = true
+					}
+					if len(cs) == 0 {
+						fmt.Printf("gencheck: %s %s seed=%d: no cases\n", id, tier, seed)
+						bad++
+					}
+					if seed == 1 {
+						fmt.Printf("%s %-8s %5d cases\n", id, tier, len(cs))
+					}
+				}
+			}
+		}
+		if bad > 0 {
+			os.Exit(2)
+		}
+		return
+	}
 	if len(os.Args) < 4 || os.Args[1] != "run" {
 		fmt.Println("usage: vcheck run <Cxx> <quick|thorough> [--replay file] [--only substr]")
 		os.Exit(2)
